@@ -56,6 +56,11 @@ func genC18(ref core.CaseRef, r *rand.Rand) *c18Batch {
 	b := &c18Batch{CaseRef: ref}
 	q := c18Queries[ref.Index%len(c18Queries)]
 	b.Query, b.SQL = q.Name, q.SQL
+	if q.Name == "sliding_pt" && (ref.Index/len(c18Queries))%2 == 1 {
+		// a window far longer than the batch: Stop arrives before the first window ends, and nothing of the
+		// window may outlive it
+		b.SQL = strings.Replace(b.SQL, "'40ms','20ms'", "'60s','20ms'", 1)
+	}
 	b.Strategy = []string{"drop", "block", "expand"}[(ref.Index/len(c18Queries))%3]
 	b.Sink = pick(r, []string{"fast", "fast", "slow", "panicking", "reentrant", "blocking"})
 	b.Producers = 2 + r.Intn(3)
